@@ -5,14 +5,7 @@ from pyvc.api import *
 from pyvc.spec import callee_of
 
 SPEC_IMPORTS = ['contracts.common']
-SPEC_FUNCTIONS = ['moves_with', 'rebase', 'to_path_spec1', 'to_path_spec2', 'with_final_newline', 'valid_path',
-                  'valid_renames']
-
-
-def valid_path(p):
-    """str(Path(x)) is normalised: non-empty, no doubled or trailing separator"""
-    s = str(p)
-    return s != '' and '//' not in s and (s == '/' or not s.endswith('/'))
+SPEC_FUNCTIONS = ['moves_with', 'rebase', 'to_path_spec1', 'to_path_spec2', 'with_final_newline', 'valid_renames']
 
 
 def valid_renames(renames):
